@@ -1,5 +1,18 @@
 # Claim table read by tools/gen_manifest.py. Only implemented, armed and quiet checks go here.
 CLAIMS = {
+    "C05": dict(
+        text="Decides, for all paths of 25 entry points and all 54 per-format trait "
+             "implementations in every build configuration: each non-error, non-zero-size path "
+             "reaches a call that obtains mutable rows of the destination (must-write summaries "
+             "bottom-up over the call graph, trait calls over all impls); every row iterator of "
+             "the containers is bounded by the view's height or delegates. Does NOT decide that a "
+             "kernel's inner loops visit every column/row of the band they were given.",
+        note="Leaf write event = ImageViewMut::{iter_rows_mut,iter_N_rows_mut,split_by_*_mut}; "
+             "what a kernel does with the rows is not analysed. Zero-size guards are recognised "
+             "as comparisons of width()/height()/crop fields with 0.",
+        technique="static analysis: must-pass-through on MIR CFG with alias tracking + "
+                  "interprocedural must-write summaries; data-dependence of returned iterators",
+    ),
     "C02": dict(
         text="Structural necessary conditions for SIMD == native, decided for all paths and build "
              "configurations (x86, x86+rayon, aarch64/NEON, wasm32/SIMD128): every CpuExtensions "
